@@ -238,7 +238,14 @@ func panicSite(st string) (fn string, inRepo bool) {
 		if k := strings.LastIndex(name, "("); k > 0 {
 			name = name[:k]
 		}
-		return name, strings.HasPrefix(loc, "/repo/")
+		if strings.HasPrefix(loc, "/repo/") {
+			return name, true
+		}
+		// a check built against a scratch copy of the repository (JSIM_REPO)
+		if alt := os.Getenv("JSIM_REPO"); alt != "" && strings.HasPrefix(loc, strings.TrimRight(alt, "/")+"/") {
+			return name, true
+		}
+		return name, false
 	}
 	return "?", false
 }
@@ -518,7 +525,7 @@ func workerBody(prop string, h Harness, opt Options) {
 			// in-process generate-vs-replay determinism
 			r2 := ExecTape(h, prop, tier, seed, r.Tape, opt)
 			if r2.TraceHash != r.TraceHash {
-				wo.Machinery = append(wo.Machinery, fmt.Sprintf("selftest: seed %d replay hash %x != %x", seed, r2.TraceHash, r.TraceHash))
+				wo.Machinery = append(wo.Machinery, fmt.Sprintf("selftest: seed %d replay hash %x != %x; %s", seed, r2.TraceHash, r.TraceHash, firstDiff(r.Events, r2.Events)))
 			}
 		}
 		if r.Machinery != "" {
@@ -544,7 +551,7 @@ func workerBody(prop string, h Harness, opt Options) {
 			// determinism: replay the recorded tape in-process
 			r2 := ExecTape(h, prop, tier, seed, r.Tape, opt)
 			if r2.Violation == nil || r2.Violation.Class != r.Violation.Class || r2.TraceHash != r.TraceHash {
-				wo.Machinery = append(wo.Machinery, fmt.Sprintf("seed %d: violation %s did not reproduce from its own tape (hash %x vs %x)", seed, r.Violation.Key, r.TraceHash, r2.TraceHash))
+				wo.Machinery = append(wo.Machinery, fmt.Sprintf("seed %d: violation %s did not reproduce from its own tape (hash %x vs %x); %s", seed, r.Violation.Key, r.TraceHash, r2.TraceHash, firstDiff(r.Events, r2.Events)))
 				continue
 			}
 			vr.ReplayedOK = true
@@ -566,6 +573,23 @@ func workerBody(prop string, h Harness, opt Options) {
 	wo.Distinct = len(distinct)
 	wo.WallMs = nowMs() - start
 	writeJSON(out, wo)
+}
+
+// firstDiff names the first event at which two traces of the same tape part.
+func firstDiff(a, b []string) string {
+	for i := 0; i < len(a) || i < len(b); i++ {
+		var x, y string
+		if i < len(a) {
+			x = a[i]
+		}
+		if i < len(b) {
+			y = b[i]
+		}
+		if x != y {
+			return fmt.Sprintf("first difference at event %d: %q vs %q", i, x, y)
+		}
+	}
+	return "recorded events equal (difference beyond the recorded prefix)"
 }
 
 func writeJSON(path string, v any) {
